@@ -7,7 +7,7 @@ LEAN_MODULES = ["CatiiProps.C07"]
 RULE = ("same histories as C06; after EVERY step the library's validate(True) plus the range / arity / non-emptiness / "
         "dtype / int-coordinate conditions it does not check, and the derived facts (abscissae = values occurring, "
         "sparsity); the model's decidable wf predicate is evaluated on the same result; plus long sparse many-valued inputs (300-900 rows) "
-        "through from_array / collapsed / filtered, which select the per-row scan strategy. Non-trivial and distinct as C06")
+        "through from_array / collapsed / filtered (masks keeping 70 %, 10 %, 2 % of the rows or only a short tail, compared with a[mask]), which select the per-row scan strategy. Non-trivial and distinct as C06")
 ASSUMPTIONS = ["entry-wise set updates are generated within their documented use (union only adds rows currently common)"]
 
 
@@ -96,11 +96,34 @@ def run(ctx):
                 for p in I.wf_problems(res):
                     ctx.oracle_fail("collapsed (long sparse input): " + p, {"shape": list(shape), "precedence": prec, "op": "from_array"},
                                     cls="C07-collapsed")
-                mask = np.array([ctx.rng.random() < 0.7 for _r in range(N)], dtype=bool)
+            # filters of long indexes that keep most rows, few rows (many more dropped than kept: every renumbering
+            # counter crosses 2^8 while the result stays short), or only rows near the end
+            for keep in (0.7, 0.1, 0.02, "tail"):
+                if keep == "tail":
+                    mask = np.zeros(N, dtype=bool)
+                    mask[N - ctx.rng.randrange(3, 120):] = True
+                    for r in ctx.rng.sample(range(N), 5):
+                        mask[r] = not mask[r]
+                else:
+                    mask = np.array([ctx.rng.random() < keep for _r in range(N)], dtype=bool)
+                # make sure some uncommon cell survives behind many dropped rows
+                rows_uncommon = np.nonzero(a.reshape(N, -1).any(axis=1))[0]
+                if len(rows_uncommon):
+                    mask[int(rows_uncommon[-1])] = True
                 ctx.hit("op:filtered_scan")
-                res = G.make_index(a, 0).filtered(mask, int(mask.sum()))
-                for p in I.wf_problems(res):
-                    ctx.oracle_fail("filtered (long sparse input): " + p, {"shape": list(shape), "op": "from_array"}, cls="C07-filtered")
+                ctx.hit("filtered_keep:%s" % keep)
+                ctx.evaluations += 1
+                src = G.make_index(a, 0)
+                try:
+                    res = src.filtered(mask, int(mask.sum()))
+                    probs = I.wf_problems(res)
+                    if not probs and not np.array_equal(I.dense_of(res), a[mask]):
+                        probs = ["dense content differs from a[mask]"]
+                except Exception as e:
+                    probs = ["raised %s: %s" % (type(e).__name__, str(e)[:80])]
+                for p in probs:
+                    ctx.oracle_fail("filtered (long sparse input, %d of %d rows kept): %s" % (int(mask.sum()), N, p),
+                                    {"shape": list(shape), "keep": str(keep), "op": "from_array"}, cls="C07-filtered")
     finally:
         ld.close()
 
